@@ -303,6 +303,42 @@ NAN_PROG = {'tempos': ['2'], 'bodies': [[['P', 1, 'S'], ['P', 2, 'S'], ['Y', '1/
                                        [['Y', '1/8'], ['YV', 'nan'], ['S', '0', [['m', 2]]]],
                                        [['Y', '1/4'], ['S', '0', [['m', 4]]], ['Y', '1/4'], ['S', '0', [['m', 5]]], ['Y', '1/4'], ['S', '0', [['m', 6]]]]],
             'nconds': 0, 'nflows': 0, 'mseed': 1, 'tail': '0', 'shared': []}
+# same-beat tasks of one TempoClock, one of them re-scheduled for that beat while pending (pause + resume: it now queues behind the
+# others), THEN a tempo / beats change of the clock (the non-real-time scheduler re-times the pending tasks): the order of the
+# wake-ups at that beat is the order of (last) scheduling in both modes.  Everything on one TempoClock (one thread).
+RETIME_PROG = {'tempos': ['2'], 'bodies': [[['P', 1, ['T', 0]], ['Y', '1/2']],
+                                          [['F', 2], ['F', 3], ['F', 4], ['pause', 2], ['resume', 2], ['T', 0, '4'], ['Y', '1/8'], ['pause', 3], ['resume', 3], ['sb', 0, '0'], ['Y', '1/8'],
+                                           ['pause', 2], ['resume', 2], ['pause', 3], ['resume', 3], ['T', 0, '1']],
+                                          [['S', '0', [['m', 1]]], ['Y', '1/8'], ['S', '0', [['m', 2]]], ['Y', '1/8'], ['S', '0', [['m', 3]]]],
+                                          [['S', '0', [['m', 4]]], ['Y', '1/8'], ['S', '0', [['m', 5]]], ['Y', '1/8'], ['S', '0', [['m', 6]]]],
+                                          [['S', '0', [['m', 7]]], ['Y', '1/8'], ['S', '0', [['m', 8]]], ['Y', '1/8'], ['S', '0', [['m', 9]]]]],
+               'nconds': 0, 'nflows': 0, 'mseed': 1, 'tail': '0', 'shared': [], 'order_clocks': [['T', 0]]}
+
+
+def gen_retime_prog(rng):
+    d = rng.choice(['1/32', '1/16', '1/8'])
+    n = rng.randint(2, 4)
+    kids = list(range(2, 2 + n))
+    head = [['F', c] for c in kids]
+    for _ in range(rng.randint(1, 3)):
+        for c in rng.sample(kids, rng.randint(1, n - 1)):
+            head += [['pause', c], ['resume', c]]
+            if rng.random() < 0.2:
+                head += [['pause', c], ['resume', c]]
+        head.append(['T', 0, rng.choice(TEMPI)] if rng.random() < 0.7 else ['sb', 0, '0'])
+        if rng.random() < 0.3:
+            head.append(['S', '0', [['m', 0]]])
+        head.append(['Y', d])
+    bodies = [[['P', 1, ['T', 0]], ['Y', '1/4']], head]
+    for c in kids:
+        b = []
+        for i in range(rng.randint(2, 4)):
+            b += [['S', rng.choice(['0', '1/8', None]), [['m', 10 * c + i]]], ['Y', d]]
+        bodies.append(b)
+    return {'tempos': [rng.choice(TEMPI)], 'bodies': bodies, 'nconds': 0, 'nflows': 0, 'mseed': rng.randint(0, 99), 'tail': '0', 'shared': [],
+            'order_clocks': [['T', 0]]}
+
+
 FIXED = [
     DUP_PROG,
     # the example of the documentation guide, inheritance and re-seeding, pause/resume, flow variable across clocks
@@ -319,6 +355,7 @@ FIXED = [
     INF_PROG,
     YV_PROG,
     NAN_PROG,
+    RETIME_PROG,
 ]
 
 
@@ -582,9 +619,25 @@ def gen_two_prog(rng):
             if rng.random() < 0.4:
                 body.append(['D', rng.randrange(NREQ)])
             body.append(['S', rng.choice(['0', '1/8']), [['m', 10 * j + i]]])
+            if rng.random() < 0.3:
+                body.append(gen_msg(rng, 10 * j + i, ['0', '1/8', '1/4']))
             body.append(['Y', d])
         bodies.append(body)
     return {'tempos': [tempo], 'bodies': bodies, 'nconds': 0, 'nflows': 0, 'mseed': rng.randint(0, 99), 'tail': '0', 'shared': []}
+
+
+def gen_msg(rng, ident, lats):
+    """a plain message whose argument is a completion bundle (numeric latencies only: None = IMMEDIATELY is written as time 0 in a score)"""
+    lat = rng.choice(lats)
+    es = [['m', rng.randint(0, 9)]]
+    if rng.random() < 0.4:
+        es.append(['b', rng.choice([l for l in lats if Fraction(l) >= Fraction(lat)]), [['m', rng.randint(0, 9)]]])
+    return ['M', ident, lat, es]
+
+
+MSG_PROG = {'tempos': ['2'], 'bodies': [[['P', 1, ['T', 0]], ['Y', '1/64'], ['M', 1, '1/4', [['m', 5]]], ['Y', '1/32'], ['M', 2, '0', [['m', 6], ['b', '1/8', [['m', 7]]]]], ['Y', '1/64'], ['M', 3, '1/8', [['m', 8]]]],
+                                        [['Y', '1/16'], ['M', 4, '1/2', [['m', 9]]], ['Y', '1/16'], ['M', 5, '1/8', [['b', '1/4', [['m', 1]]]]], ['Y', '1/16'], ['M', 6, '0', [['m', 2]]]]],
+            'nconds': 0, 'nflows': 0, 'mseed': 1, 'tail': '0', 'shared': []}
 
 
 def gen_life_prog(rng):
@@ -601,6 +654,8 @@ def gen_life_prog(rng):
             body.append(['D', rng.randrange(NREQ)])
         elif r < 0.6:
             body.append(['S', rng.choice(['0', None, '1/8']), [['m', rng.randint(0, 9)]]])
+        elif r < 0.66:
+            body.append(gen_msg(rng, rng.randint(0, 99), ['0', '1/8', '1/4']))
         elif r < 0.7:
             body.append(['cbs'])
         elif r < 0.78:
@@ -621,7 +676,8 @@ def gen_life_prog(rng):
         if r < 0.3:
             # reset() and stop() set the routine's _clock to SystemClock even while it is still queued on a TempoClock; a later
             # Condition.signal then re-schedules it on SystemClock (another thread): on a TempoClock only replay (reset + play) is used
-            root.append([rng.choice(['stop', 'replay', 'replay', 'play2', 'pause', 'resume'] if tempo else
+            # (stop() too: a stopped routine still in a waiting list is put on SystemClock's queue by signal(); harmless unless it is re-played meanwhile)
+            root.append([rng.choice(['replay', 'replay', 'replay', 'play2', 'pause', 'resume'] if tempo else
                                     ['stop', 'reset', 'replay', 'replay', 'play2', 'pause', 'resume']), rng.randint(1, nb - 1)])
         else:
             common(root, 0)
@@ -655,7 +711,7 @@ def check_post(c, p, o, mode):
 
 
 def quant_part(ctx, c):
-    cases = [QUANT_PROG, LIFE_PROG, TWO_PROG] + [gen_quant_prog(ctx.rng) for _ in range(ctx.n(45, 400))] + \
+    cases = [QUANT_PROG, LIFE_PROG, TWO_PROG, MSG_PROG] + [gen_quant_prog(ctx.rng) for _ in range(ctx.n(45, 400))] + \
             [gen_life_prog(ctx.rng) for _ in range(ctx.n(45, 400))] + [gen_two_prog(ctx.rng) for _ in range(ctx.n(8, 48))]
     A, B = par([lambda: impl_tagged(ctx, 'qA', {'cases': cases}, 'nrt', hashseed='77'),
                 lambda: impl_tagged(ctx, 'qB', {'cases': cases}, 'nrt', hashseed='88')])
@@ -677,7 +733,7 @@ def quant_part(ctx, c):
                 c.count('quant:' + v[3])
         for b_ in p['bodies']:
             for act in b_:
-                if act[0] in ('stop', 'reset', 'replay', 'play2', 'raise', 'cbs', 'resumeon', 'playon', 'replayon', 'sch2'):
+                if act[0] in ('stop', 'reset', 'replay', 'play2', 'raise', 'cbs', 'resumeon', 'playon', 'replayon', 'sch2', 'M'):
                     c.count('life:' + act[0])
         check_post(c, p, a, 'nrt')
         for text in a['stream_errors']:
@@ -708,7 +764,8 @@ def quant_part(ctx, c):
                 else:
                     r = r2
         if d:
-            fam = ('a task pending on two clocks at once (routine resumed / played on another clock, one Function scheduled on two clocks)'
+            fam = ('a plain message (send_msg) carrying a completion bundle: the time tags inside the blob' if any(v[0] == 'q' and v[3] == 'msg' for v in a['vals']) and 'msg' in d else
+                   'a task pending on two clocks at once (routine resumed / played on another clock, one Function scheduled on two clocks)'
                    if acts_ & {'resumeon', 'playon', 'replayon', 'sch2'} else
                    'routine life cycle (stop / reset / replay / exceptions)' if acts_ & {'stop', 'reset', 'replay', 'play2', 'raise', 'cbs'} else
                    'TempoClock quantisation API called from inside routines')
@@ -789,7 +846,9 @@ def correspond(ctx):
     if os.path.exists(corpus):
         nrt_cases += json.load(open(corpus))
     nrt_cases += [gen_xprog(rng, 'nrt') for _ in range(ctx.n(600, 3000))]
-    rt_cases = [SHARED_PROG, SEEDS_PROG, STORM_PROG, SETBEATS_PROG, INF_PROG, YV_PROG, NAN_PROG] + [gen_xprog(rng, 'single' if i % 2 == 0 else 'groups') for i in range(ctx.n(150, 900))]
+    retime_cases = [gen_retime_prog(rng) for _ in range(ctx.n(40, 200))]
+    nrt_cases += retime_cases
+    rt_cases = [SHARED_PROG, SEEDS_PROG, STORM_PROG, SETBEATS_PROG, INF_PROG, YV_PROG, NAN_PROG, RETIME_PROG] + retime_cases[:ctx.n(12, 60)] + [gen_xprog(rng, 'single' if i % 2 == 0 else 'groups') for i in range(ctx.n(150, 900))]
     cases = nrt_cases + rt_cases
     first_rt = len(nrt_cases)
 
